@@ -51,6 +51,38 @@ _hist("C13", "runtime monitor: delivery announcements in the recorded streams + 
       "be announced with fresh larger UIDs, \\Recent and the agent's flags; .mh_sequences must list no removed message and agree with the flags sessions see, including "
       "the number-reuse scenario.")
 
+def _fn(pid, technique, text, note, engine="rig+vloop"):
+    CHECKS[pid] = dict(category="exploration", technique=technique, text=text, note=note, design=f"DESIGN.md section 4 {pid}", engine=engine)
+
+
+_fn("C07", "runtime monitor: strict independent response parser on every octet sent + ENVELOPE/LIST/STATUS round-trip oracles",
+    "Exploration: generated RFC 5322/MIME messages of every structural class with hostile header values (quotes, backslashes, encoded words, raw 8-bit, folding, missing "
+    "fields) and the fixture corpus are stored as files and by APPEND and fetched with every data item, section, partial and macro; mailboxes with hostile names are "
+    "listed; error paths echoing client input are driven.  Every octet every session receives must parse under the strict RFC 3501 response grammar (CRLF, literal "
+    "counts, quoted strings, balanced parentheses, ENVELOPE/BODYSTRUCTURE arities) and decoded strings must give back header values and names.  Held on the "
+    "messages/names listed in the evidence.",
+    "the response grammar is DESIGN appendix G; raw 8-bit header values are excluded from the round-trip comparison only")
+_fn("C16", "runtime monitor: equations between FETCH literals of the same stored message; APPEND/COPY fidelity oracles",
+    "Exploration: the same generated corpus; per stored message RFC822.SIZE=|BODY[]|, HEADER||TEXT=BODY[], RFC822*=BODY[*], <o.n>=slice, repeatability, CRLF-only, "
+    "APPEND header-field/body-content fidelity and COPY byte identity.  Held on the messages listed in the evidence; one open known finding (bare LF in a multipart preamble).",
+    "APPEND fidelity compares fields as a multiset of (name, RFC 2047-decoded value) and bodies after transfer decoding; fixture messages whose MIME structure parses differently are compared on equations only")
+_fn("C14", "runtime monitor: independent search evaluator on server-reported facts + algebraic law instances",
+    "Exploration: search programs generated from the RFC 3501 search grammar (depth <= 4, every key) over mailboxes of 0-10 generated messages with planted unique tokens; "
+    "results compared with a reference evaluator using FLAGS/RFC822.SIZE/INTERNALDATE as reported by the server plus generator ground truth, and with NOT/OR/AND/idempotence/"
+    "De Morgan/UID-mapping law instances.  Held on the programs listed in the evidence.",
+    "charset conversion, matching inside encoded words and SENT* keys on messages without a Date header are not asserted")
+_fn("C15", "runtime monitor: reference denotation of a sequence set vs every interpreter (end-to-end commands and the real functions called on a live Mailbox)",
+    "Exploration, exhaustive on the bound in the thorough tier: every set of <= 3 elements over {0..N+1,*} and their ranges for N <= 5 at function level "
+    "(msg_set_to_msg_seq_set, sequence_set_to_list as COPY uses it, the search matchers), every set of <= 2 elements end-to-end in FETCH/UID FETCH/SEARCH keys/STORE/COPY "
+    "and sampled MOVE/UID MOVE/UID EXPUNGE on sparse-UID mailboxes; rejected non-UID numbers must never be applied.",
+    "function-level evaluation calls the real functions on the live Mailbox object of the rig; UID sets containing 0 may be rejected or ignored")
+_fn("C08", "differential runtime monitor: real IMAPClientCommand.parse() vs an independent RFC 3501 command reader; totality monitor; proxy end-to-end sample",
+    "Exploration: grammar-directed sentences of every command and argument encoding, their truncations/mutations/garbage, random bytes and adversarial specials; "
+    "the real parser must reject non-sentences with BadCommand only, within a CPU budget, and for sentences produce the same command, UID flag, sets, names (quoted escapes "
+    "decoded, literals by count, only exact INBOX folded), flags, dates, fetch attributes, search tree, options and APPEND literal; rejected inputs sent through the real "
+    "proxy get BAD and the session survives.  Five open known findings are classified by mechanism.",
+    "the reference reader (refparse.py) is hand-written from the ABNF and self-tested against the sentence generator", engine="refparse")
+
 PENDING = "check under construction in this round; not yet validated against the unchanged tree and seeded changes"
 
 ALL = ["C%02d" % i for i in range(1, 21)]
@@ -85,6 +117,7 @@ def main():
         },
         "engines": [
             {"name": "rig+vloop", "path": "asimap_verif/rig.py", "serves_properties": sorted(CHECKS), "kind_free_text": "real per-user server in process, sessions at the byte boundary, virtual-time event loop, audit-hook guard + mount-namespace jail"},
+            {"name": "refparse", "path": "asimap_verif/refparse.py", "serves_properties": ["C08"], "kind_free_text": "independent reference reader of the RFC 3501 command grammar"},
             {"name": "wire", "path": "asimap_verif/wire.py", "serves_properties": sorted(CHECKS), "kind_free_text": "strict independent IMAP response / POP3 reply parser (oracle for C07, decoder for all)"},
         ],
         "checks": checks,
